@@ -48,7 +48,8 @@ Record tg := {
   unfinished : list N;         (* the `unfinished` set of the _cancel_tasks in progress *)
   queue : list handle;         (* the loop's ready queue, FIFO (group-related handles only) *)
   log_done : list N;           (* ghost: order in which non-daemon members finished *)
-  consumed : list N;           (* ghost: members returned by next_done() so far, in order *)
+  consumed : list N;           (* ghost: members returned by next_done() to join so far, in order *)
+  app_consumed : list N;       (* ghost: members the application took with next_done() before the join *)
 }.
 
 Definition memN (x : N) (l : list N) : bool := existsb (N.eqb x) l.
@@ -71,31 +72,32 @@ Definition upd_members (g : tg) (ms : list (N * member)) : tg :=
      joined := joined g; completed := completed g; pol := pol g; mode := mode g; pc := pc g;
      entered := entered g; granted := granted g; wake := wake g; must_cancel := must_cancel g;
      jexc := jexc g; unfinished := unfinished g; queue := queue g; log_done := log_done g;
-     consumed := consumed g |}.
+     consumed := consumed g; app_consumed := app_consumed g |}.
 Definition upd_queue (g : tg) (q : list handle) : tg :=
   {| members := members g; pending := pending g; daemons := daemons g; doneq := doneq g; semv := semv g;
      joined := joined g; completed := completed g; pol := pol g; mode := mode g; pc := pc g;
      entered := entered g; granted := granted g; wake := wake g; must_cancel := must_cancel g;
      jexc := jexc g; unfinished := unfinished g; queue := q; log_done := log_done g;
-     consumed := consumed g |}.
+     consumed := consumed g; app_consumed := app_consumed g |}.
 Definition upd_group (g : tg) (p d dq : list N) (sv : nat) : tg :=
   {| members := members g; pending := p; daemons := d; doneq := dq; semv := sv;
      joined := joined g; completed := completed g; pol := pol g; mode := mode g; pc := pc g;
      entered := entered g; granted := granted g; wake := wake g; must_cancel := must_cancel g;
      jexc := jexc g; unfinished := unfinished g; queue := queue g; log_done := log_done g;
-     consumed := consumed g |}.
+     consumed := consumed g; app_consumed := app_consumed g |}.
 Definition upd_joiner (g : tg) (p : jpc) (en gr : bool) (wk : option bool) (mc je : bool)
                       (unf : list N) (jd : bool) (cm : option N) (cs : list N) : tg :=
   {| members := members g; pending := pending g; daemons := daemons g; doneq := doneq g; semv := semv g;
      joined := jd; completed := cm; pol := pol g; mode := mode g; pc := p;
      entered := en; granted := gr; wake := wk; must_cancel := mc;
-     jexc := je; unfinished := unf; queue := queue g; log_done := log_done g; consumed := cs |}.
+     jexc := je; unfinished := unf; queue := queue g; log_done := log_done g; consumed := cs;
+     app_consumed := app_consumed g |}.
 
 Definition init (p : policy) (m : jmode) : tg :=
   {| members := []; pending := []; daemons := []; doneq := []; semv := 0; joined := false;
      completed := None; pol := p; mode := m; pc := JNot; entered := false; granted := false;
      wake := None; must_cancel := false; jexc := false; unfinished := []; queue := [];
-     log_done := []; consumed := [] |}.
+     log_done := []; consumed := []; app_consumed := [] |}.
 
 (* ---------- the semaphore, as seen by the single joining task ---------- *)
 (* release(): value += 1, then hand it to the joiner if it is waiting on a live future *)
@@ -150,7 +152,8 @@ Definition finish_member (g : tg) (t : N) (o : outcome) : tg :=
                   semv := semv g2; joined := joined g2; completed := completed g2; pol := pol g2;
                   mode := mode g2; pc := pc g2; entered := entered g2; granted := granted g2; wake := wake g2;
                   must_cancel := must_cancel g2; jexc := jexc g2; unfinished := unfinished g2;
-                  queue := queue g2; log_done := log_done g2 ++ [t]; consumed := consumed g2 |}
+                  queue := queue g2; log_done := log_done g2 ++ [t]; consumed := consumed g2;
+                  app_consumed := app_consumed g2 |}
       end
   | None => g
   end.
@@ -332,8 +335,23 @@ Inductive label :=
 | LCancelMember (t : N)
 | LStart                                                       (* the joining task is created (its first step scheduled) *)
 | LCancelJoiner
-| LRun (h : handle) (order : list N).   (* the loop runs the handle at the head of the queue;
+| LRun (h : handle) (order : list N)    (* the loop runs the handle at the head of the queue;
                                            [order] = iteration order of a set of tasks, if one is iterated *)
+| LAppNext.                             (* the application calls next_done() before the join has begun, with a
+                                           finished member queued (otherwise the call would wait: not modelled) *)
+
+(* next_done() called by the application while the joining task has not run: a permit is free exactly when a
+   member is queued, so acquire() does not wait; the head of _done is handed out *)
+Definition app_next (g : tg) : tg :=
+  match pc g, consumed g, doneq g, semv g with
+  | JNot, [], t :: rest, S sv =>
+      {| members := members g; pending := pending g; daemons := daemons g; doneq := rest; semv := sv;
+         joined := joined g; completed := completed g; pol := pol g; mode := mode g; pc := pc g;
+         entered := entered g; granted := granted g; wake := wake g; must_cancel := must_cancel g;
+         jexc := jexc g; unfinished := unfinished g; queue := queue g; log_done := log_done g;
+         consumed := consumed g; app_consumed := app_consumed g ++ [t] |}
+  | _, _, _, _ => g
+  end.
 
 Definition step (g : tg) (l : label) : tg :=
   match l with
@@ -356,6 +374,7 @@ Definition step (g : tg) (l : label) : tg :=
           end
       | [] => g
       end
+  | LAppNext => app_next g
   end.
 
 Definition run (p : policy) (m : jmode) (ls : list label) : tg := fold_left step ls (init p m).
@@ -368,6 +387,7 @@ Record snap := {
   s_jdone : bool;                                (* the joining task is done() *)
   s_cancelreq : list N;                          (* unfinished members with a cancellation request *)
   s_jcancelled : bool;                           (* the joining task ended cancelled *)
+  s_appconsumed : list N;                        (* what next_done() gave the application, in order *)
 }.
 Definition cb_eqb (a b : cb) : bool :=
   match a, b with OnDone x, OnDone y | Pop x, Pop y => N.eqb x y | _, _ => false end.
@@ -383,7 +403,8 @@ Definition snap_ok (g : tg) (s : snap) : bool :=
   list_eqb handle_eqb (queue g) (s_queue s) &&
   Bool.eqb (match pc g with JEnded _ _ _ => true | _ => false end) (s_jdone s) &&
   set_eqb (map fst (filter (fun x => match m_status (snd x) with RunC => true | _ => false end) (members g))) (s_cancelreq s) &&
-  Bool.eqb (match pc g with JEnded c _ _ => c | _ => false end) (s_jcancelled s).
+  Bool.eqb (match pc g with JEnded c _ _ => c | _ => false end) (s_jcancelled s) &&
+  list_eqb N.eqb (app_consumed g) (s_appconsumed s).
 
 Fixpoint trace_firstbad (g : tg) (tr : list (label * option snap)) (i : nat) : option nat :=
   match tr with
